@@ -83,6 +83,17 @@ Theorem c02_names_injective : forall expand st1 now1 lim1 q1 u1 c1 st2 now2 lim2
 Proof. exact names_injective. Qed.
 Print Assumptions c02_names_injective.
 
+(* the authenticated user's name is the ONLY identity the certificate carries: no further principal or
+   critical option (SSH); no DNS, e-mail, URI, address, directory or other-name entry in the subject
+   alternative name, no further subject attribute, no second common name (X.509); the PKINIT name, when
+   a realm is configured, is the same user in that realm *)
+Theorem c02_no_other_names : forall expand st now lim q u c,
+  certgen expand st now lim q = Issued u c ->
+  d_other_names c = [] /\ d_names c = [s_name st u] /\
+  match d_krb c with Some (r, p) => s_realm st = Some r /\ p = s_name st u | None => True end.
+Proof. exact no_other_names. Qed.
+Print Assumptions c02_no_other_names.
+
 (* the credential minted for a submitted name is for its normalisation (reprocessUsername);
    the endpoint compares the raw URL segment with it and writes it into the certificate *)
 Theorem c02_user_is_normalised : forall expand okta disable st now lim q submitted u c,
